@@ -25,6 +25,7 @@ class Divergence(BaseException):
 
 
 SOLVER_TIMEOUT_MS = 30000
+SCATTER_MODELS = 3
 
 
 class Ctx:
@@ -148,6 +149,28 @@ def _inputs_witness():
                         sol.add(term == bounds[name][side])
                         if sol.check() != z3.sat:
                             sol.pop()
+                if sol.check() == z3.sat:
+                    w = _eval_wit(sol.model(), ins)
+                    if w not in out:
+                        out.append(w)
+            finally:
+                while sol.num_scopes() > 0:
+                    sol.pop()
+        # scattered models: residue constraints on the inputs (deterministic per path), so that the concrete probes of an
+        # inconclusive path do not all sit at the solver's favourite corner
+        import random
+        rnd = random.Random(len(c.decisions) * 7919 + len(ins))
+        for _ in range(SCATTER_MODELS):
+            sol.push()
+            try:
+                for name, term in ins.items():
+                    if not z3.is_int(term):
+                        continue
+                    p = rnd.choice((3, 5, 7, 11, 13))
+                    sol.push()
+                    sol.add(term % p == rnd.randrange(p))
+                    if sol.check() != z3.sat:
+                        sol.pop()
                 if sol.check() == z3.sat:
                     w = _eval_wit(sol.model(), ins)
                     if w not in out:
